@@ -97,6 +97,20 @@ def _encode(s: SSeq, encoding="utf-8", errors="strict") -> SSeq:
                 out.append((_ext8(z3.LShR(e, 6)) & 0x3F) | 0x80)
                 out.append((_ext8(e) & 0x3F) | 0x80)
         return SSeq("bytes", out, len(out))
+    if enc == "idna":
+        # pure ASCII input only: labels must be 1..63 characters (an empty label is
+        # allowed only at the very end), the result is the input unchanged
+        if not c.decide(z3.And(*[z3.ULT(e, 0x80) for e in es]) if es else z3.BoolVal(True)):
+            raise Unsupported("idna encoding of non-ASCII text")
+        labels = s.split(".")
+        if labels and len(labels[-1]) == 0 and len(labels) > 1:
+            labels = labels[:-1]
+        elif len(es) == 0:
+            return SSeq("bytes", [], 0)
+        for lab in labels:
+            if not 0 < len(lab) < 64:
+                raise UnicodeError("label empty or too long")
+        return SSeq("bytes", [_ext8(e) for e in es], len(es))
     raise Unsupported(f"encode to {encoding}")
 
 
@@ -244,3 +258,19 @@ _handlers = {}
 
 def register_handler(name, fn):
     _handlers[name] = fn
+
+
+def _url_quote_handler(bs):
+    """model of werkzeug's codec error handler 'werkzeug.url_quote':
+    quote(bytes, safe="") -> '%XX' (upper-case hex) for every offending byte"""
+    out = []
+    for b in bs:
+        hi = z3.LShR(b, 4)
+        lo = b & 0x0F
+        out.append(bvv(ord("%"), WS))
+        for nib in (hi, lo):
+            out.append(z3.simplify(_zx(z3.If(z3.ULT(nib, 10), nib + 48, nib + 55))))
+    return out
+
+
+register_handler("werkzeug.url_quote", _url_quote_handler)
